@@ -1,7 +1,7 @@
 use super::Error;
 use anyhow::Result;
 use futures::{stream::FuturesUnordered, StreamExt};
-use indexmap::IndexMap;
+use indexmap::{IndexMap, IndexSet};
 use miette::SourceSpan;
 use semver::{Version, VersionReq};
 use std::{fs, path::Path, sync::Arc};
@@ -85,7 +85,14 @@ impl RegistryPackageResolver {
                     (key.version.cloned(), *span),
                 ))
             })
-            .collect::<Result<IndexMap<PackageName, (Option<Version>, SourceSpan)>, Error>>()?;
+            .collect::<Result<Vec<(PackageName, (Option<Version>, SourceSpan))>, Error>>()?;
+
+        // one entry per requested key (several keys may share a package name);
+        // the package logs only need to be fetched once per name
+        let package_names = package_names_with_source_span
+            .iter()
+            .map(|(name, _)| name)
+            .collect::<IndexSet<_>>();
 
         // fetch required package logs and return error if any not found
         if let Some(bar) = self.bar.as_ref() {
@@ -94,14 +101,19 @@ impl RegistryPackageResolver {
 
         match self
             .client
-            .fetch_packages(package_names_with_source_span.keys())
+            .fetch_packages(package_names.iter().copied())
             .await
         {
             Ok(_) => {}
             Err(ClientError::PackageDoesNotExist { name, .. }) => {
                 return Err(Error::PackageDoesNotExist {
                     name: name.to_string(),
-                    span: package_names_with_source_span.get(&name).unwrap().1,
+                    span: package_names_with_source_span
+                        .iter()
+                        .find(|(n, _)| *n == name)
+                        .unwrap()
+                        .1
+                         .1,
                 });
             }
             Err(err) => {
